@@ -453,7 +453,18 @@ pub fn make_event(e: &Value) -> EngineEvent<DataKind> {
         "OrderSnap" => account(AccountEventKind::OrderSnapshot(Snapshot(order_snapshot(e)))),
         "CancelResp" => account(AccountEventKind::OrderCancelled(OrderResponseCancel {
             key: key_of(e),
-            state: if b(e, "ok") { Ok(Cancelled::new(OrderId::new("o1"), time(t))) } else { Err(OrderError::Connectivity(ConnectivityError::Timeout)) },
+            // a failed cancel comes in several flavours (timeout, rate limit, "already cancelled", "already fully
+            // filled"): the engine treats every one of them as "the cancel failed"
+            state: if b(e, "ok") {
+                Ok(Cancelled::new(OrderId::new("o1"), time(t)))
+            } else {
+                Err(match t.rem_euclid(4) {
+                    0 => OrderError::Connectivity(ConnectivityError::Timeout),
+                    1 => OrderError::Rejected(barter_execution::error::ApiError::OrderAlreadyCancelled),
+                    2 => OrderError::Rejected(barter_execution::error::ApiError::OrderAlreadyFullyFilled),
+                    _ => OrderError::Rejected(barter_execution::error::ApiError::RateLimit),
+                })
+            },
         })),
         "Trade" => account(AccountEventKind::Trade(Trade {
             id: TradeId::new(format!("t{t}")),
